@@ -22,7 +22,26 @@ def faulty_case(draw):
     kinds.append("init_ancestor")
   if [j for j in others if j not in anc]:
     kinds.append("init_elsewhere")
+  if anc:
+    kinds.append("none_exit_walk")
+  if descendants(spec["parent"], f):
+    kinds.append("none_search_init_target")
   kind = draw(st.sampled_from(kinds))
+  if kind == "none_exit_walk":
+    # f returns no status for EXIT; an ancestor of f takes a transition while f is active
+    return {"spec": spec, "fault_state": f, "fault": kind, "bad_target": draw(st.sampled_from(anc)),
+            "reach": "dispatch", "start": f, "host": draw(st.sampled_from(["plain", "instr", "queued"])),
+            "target": draw(st.integers(0, n - 1))}
+  if kind == "none_search_init_target":
+    # a proper descendant g of f answers the super-state probe with no status and is f's init target
+    g = draw(st.sampled_from(descendants(spec["parent"], f)))
+    starts = [x for x in range(n) if ("INIT", f) not in Model(spec).start(x) and x != g]
+    if not starts:
+      kind = "init_self"
+    else:
+      return {"spec": spec, "fault_state": f, "fault": kind, "bad_target": g, "reach": "dispatch",
+              "start": draw(st.sampled_from(starts)), "host": draw(st.sampled_from(["plain", "instr", "queued"])),
+              "variant": draw(st.sampled_from(["none_search", "none_search_set"]))}
   if kind == "init_self":
     bad = f
   elif kind == "init_ancestor":
@@ -56,12 +75,14 @@ class C24(Prop):
   rule = ("Hypothesis-generated well-formed chart with ONE injected fault: a state's initial "
           "transition targets itself, one of its ancestors, or a state elsewhere in the forest "
           "(not nested inside it); or a state returns no status (None) when a user event is "
-          "offered to it. The fault is reached by start_at (the faulty state is the start state) or "
+          "offered to it, for its exit event while an ancestor's transition walks out through it, or "
+          "for the super-state probe while it is the target of an initial transition. The fault is reached by start_at (the faulty state is the start state) or "
           "by dispatch (the chart is started where the fault is not touched, then an event whose "
           "transition targets the faulty state - or, for the status fault, the offered event - is "
           "dispatched), on the plain, instrumented and queued processors. Oracle: the call that "
           "reaches the fault raises HsmTopologyException before the call bound (20k top() calls / "
-          "200k handler calls); a bound hit, any other exception, or a silent return is a failure. "
+          "200k handler calls); a bound hit, any other exception, or a silent return is a failure (for the super-state-probe "
+          "fault termination - by the exception or normally - is required, nothing more). "
           "Non-trivial: the fault is reached through dispatch; distinct = distinct case digests.")
   assumptions = [
     "hang detection is a call-count bound enforced by a top()-counting subclass and the handlers",
@@ -72,9 +93,63 @@ class C24(Prop):
   def strategy(self, tier):
     return faulty_case()
 
+  def check_status_fault(self, case, stats):
+    """Handlers without a status for the exit event (reached by the exit walk: must raise) or for
+    the super-state probe (as an init target reached by dispatch: must terminate)."""
+    from miros.event import Event, signals
+    from miros.hsm import HsmTopologyException
+    spec = copy.deepcopy(case["spec"])
+    f, kind = case["fault_state"], case["fault"]
+    ZS = "VE"
+    spec["sigs"] = list(spec["sigs"]) + [ZS]
+    model = Model(case["spec"])
+    if kind == "none_exit_walk":
+      a = case["bad_target"]                   # the ancestor that takes the transition
+      spec["faults"] = {str(f): "none_exit"}
+      spec["react"][a] = dict(spec["react"][a])
+      spec["react"][a][ZS] = ["trans", case["target"]]
+      must_raise = True
+    else:
+      g = case["bad_target"]
+      spec["faults"] = {str(g): case["variant"]}
+      spec["init"][f] = g
+      model.start(case["start"])
+      rest = model.cur
+      spec["react"][rest] = dict(spec["react"][rest])
+      spec["react"][rest][ZS] = ["trans", f]
+      must_raise = False
+    rt = chartgen.build(spec, decorate=spec["spy"])
+    chart = hsmcheck.make_host(case["host"])
+    stats.case(case, True, ["fault_" + kind, "reach_dispatch", "host_" + case["host"]])
+    what = "%s (faulty state %s) on %s" % (kind, name_of(f if kind == "none_exit_walk" else case["bad_target"]),
+                                         case["host"])
+    try:
+      chart.start_at(rt.fns[case["start"]])
+    except HsmTopologyException:
+      return            # the probe fault may already surface while starting
+    except HarnessBound as e:
+      raise PropertyViolation("%s: start_at never returned (%s)" % (what, e), "C24:hang-start")
+    except Exception as e:
+      raise PropertyViolation("%s: start_at raised %s (%s)" % (what, type(e).__name__, e), "C24:wrong-exception")
+    try:
+      chart.dispatch(Event(signal=signals[ZS]))
+    except HsmTopologyException:
+      return
+    except HarnessBound as e:
+      raise PropertyViolation("%s: dispatch never returned (%s)" % (what, e), "C24:hang-dispatch")
+    except Exception as e:
+      raise PropertyViolation("%s: dispatch raised %s (%s), not HsmTopologyException" % (
+        what, type(e).__name__, e), "C24:wrong-exception")
+    if must_raise:
+      raise PropertyViolation("%s: the exit walk passed a state that returned no status for its exit "
+                              "event and dispatch returned normally (resting in %s)" % (what, chart.state_name),
+                              "C24:silent")
+
   def check(self, case, stats):
     from miros.event import Event, signals
     from miros.hsm import HsmTopologyException
+    if case["fault"] in ("none_exit_walk", "none_search_init_target"):
+      return self.check_status_fault(case, stats)
     spec = copy.deepcopy(case["spec"])
     f, kind = case["fault_state"], case["fault"]
     ZS, ZN = "VE", "VF"          # signals reserved for reaching / triggering the fault
@@ -140,3 +215,4 @@ class C24(Prop):
 
 
 PROP = C24
+
